@@ -30,7 +30,11 @@ pub fn packing(c: &Case) -> TablePacking {
 }
 
 fn check<C: Pv>(c: &Case) -> Report {
+    // half of the cases link decompositions through the `recompose/coeff` table
+    let coeff_ctl = c.log_min_height % 2 == 1;
+    e1::COEFF_CTL.with(|f| f.set(coeff_ctl));
     let built: Built<C> = e1::interpret::<C>(&c.prog, e1::Excl::ALL_SAT);
+    e1::COEFF_CTL.with(|f| f.set(false));
     if !built.src_sat() {
         return Report::discard("program not satisfied by its inputs");
     }
@@ -88,6 +92,7 @@ fn check<C: Pv>(c: &Case) -> Report {
         .class(format!("alu_lanes:{}", pk.alu_lanes()))
         .class(format!("horner_k:{}", pk.horner_packed_steps()))
         .class(if c.prog.recompose_npo { format!("recompose_lanes:{rl}") } else { "recompose_lanes:-".to_string() })
+        .class(if c.prog.recompose_npo && coeff_ctl { "decompose-links:recompose/coeff" } else { "decompose-links:default" })
         .classes(features.iter().map(|f| format!("feat:{f}")))
         .classes(excluded.iter().map(|e| format!("excluded_by_known_finding:{e}")));
     if alu_ops == 0 {
